@@ -362,6 +362,19 @@ class State:
         f = z3bool(f) if not z3.is_expr(f) else f
         self.pc.append(f)
 
+    def lin(self):
+        """linearised path condition, maintained incrementally (one abstraction map per path)"""
+        if not hasattr(self, "_lz"):
+            self._lz = Linearizer()
+            self._lzpc = []
+            self._lz_nl = False
+        while len(self._lzpc) < len(self.pc):
+            h = self.pc[len(self._lzpc)]
+            if not is_linear(h):
+                self._lz_nl = True
+            self._lzpc.append(self._lz(h))
+        return self._lz, self._lzpc
+
     def hint(self, *eqs):
         """concrete values that make the nonlinear part of the path condition ground: only used to *find models*
         (feasibility of branches, vacuity canary) - never as hypotheses of a proof"""
@@ -380,13 +393,12 @@ class State:
             timeout = min(timeout, 800)
         s = z3.Solver()
         s.set("timeout", timeout)
-        if any(not is_linear(h) for h in self.pc) or not is_linear(extra):
+        lz, lpc = self.lin()
+        if self._lz_nl or not is_linear(extra):
             # feasibility on the linearised abstraction (over-approximation: 'unsat' is sound, anything else = feasible);
             # keeps nonlinear reasoning (and z3 runs that ignore their timeout) out of the branch exploration
             try:
-                lz = Linearizer()
-                for h in self.pc:
-                    s.add(lz(h))
+                s.add(lpc)
                 s.add(lz(extra))
                 for ax in lz.axioms():
                     s.add(ax)
@@ -707,15 +719,14 @@ class Explorer:
                         s = None
             except z3.Z3Exception:
                 r = None
-        if r is None and (any(not is_linear(h) for h in st.pc) or not is_linear(goal)):
+        lz, lpc = st.lin()
+        if r is None and (st._lz_nl or not is_linear(goal)):
             # abstraction: every nonlinear monomial / division becomes one fresh variable (sound for 'unsat');
             # proves whatever follows from the hypotheses by linear combination
             try:
-                lz = Linearizer()
                 s = z3.Solver()
                 s.set("timeout", 5000)
-                for h in st.pc:
-                    s.add(lz(h))
+                s.add(lpc)
                 s.add(z3.Not(lz(goal)))
                 for ax in lz.axioms():
                     s.add(ax)
@@ -742,7 +753,7 @@ class Explorer:
             s.set("timeout", tmo)
             s.add(st.pc)
             s.add(z3.Not(goal))
-            nonlin = any(not is_linear(h) for h in st.pc) or not is_linear(goal)
+            nonlin = st._lz_nl or not is_linear(goal)
             if kind == "canary" and nonlin:
                 r = z3.unknown  # vacuity of nonlinear path conditions: hinted model search / linearised refutation only
             elif nonlin:
